@@ -175,6 +175,7 @@ def NextSuspending (p : Stmt) : Prop :=
 
 macro "queue_eval" : tactic => `(tactic|
   (simp (config := { decide := true }) [runMethod, exec, exec.execH, eval, builtin, ext, conc, elems, upd, Val.same,
-     Val.truthy, excClass, isSub, reasonVal, valReason, mapW, Haiway.Queue.step, *]))
+     Val.truthy, excClass, isSub, reasonVal, valReason, mapW, Haiway.Queue.step, cmpInt,
+     len1_ne_zero, len1_beq_zero, len1_eq_zero, len1_pos, len1_ge_one, len2_ge_one, len2_eq_one, len2_beq_one, len2_bne_one, len2_gt_one, *]))
 
 end Haiway.Bridge.Queue
